@@ -756,7 +756,8 @@ impl SerializableValue {
                     args: s_lambda.args.clone(),
                     body: body_ast,
                     scope: CapturedScope::new(scope),
-                    source: Rc::from(""), // Deserialized lambdas don't have original source
+                    // The body was parsed from this string, so its spans refer to it
+                    source: Rc::from(s_lambda.body.as_str()),
                 };
 
                 Ok(heap.insert_lambda(lambda))
